@@ -1,7 +1,8 @@
 \* judge for C05: allocation bound K * MaxBody + Slack = 6 * 16 MiB + 1 MiB (DESIGN.md Appendix B)
 CONSTANTS
   MaxBodyKiB = 16384
-  K = 6
+  KRead = 6
+  KDispatch = 12
   SlackKiB = 1024
 INIT Init
 NEXT Next
